@@ -203,7 +203,7 @@ func genC06(dir, tier string, seed int64) {
 			}
 		}
 	}
-	nodeOutputs = nil
+	nodeOutputs = defaultNodeOutputs
 	cw.close()
 	split.Distinct = split.N // every case is a fresh random draw / a different model, count or split point
 	meta.GoOnly = append(meta.GoOnly, split)
